@@ -329,6 +329,7 @@ class S3TapeCassette(TapeCassette):
         """
 
         days_iterators = self._get_days_iterators(category, start_date, end_date, metadata, limit, random_results)
+        metadata_key_prefix = self.METADATA_KEY.format(key_prefix=self.key_prefix, id='')
 
         count = 0
         iter_index = 0
@@ -340,8 +341,8 @@ class S3TapeCassette(TapeCassette):
                 iter_index += 1
             key = next(random_day_iterator, None)
             if key:
-                result = self._metadata_key_parser.parse(key)
-                recording_id = result.named['id']
+                # The id is what follows this cassette's metadata key prefix (which may be empty key prefix)
+                recording_id = key[len(metadata_key_prefix):]
                 _logger.info(u'Found filtered recording id {}'.format(recording_id))
                 yield recording_id
                 count += 1
